@@ -134,7 +134,8 @@ def _shared_input(R):
     P = R.prog
     R.rule("C02.shared", "the per-line parsing input (the parsed JSON document and the pattern results) is only borrowed shared once it is "
                          "built: no function of the extraction subgraph takes it (or a serde_json value) by &mut, and "
-                         "TableDefinition::extract creates no &mut borrow of it - a column cannot consume or alter what the next column reads")
+                         "TableDefinition::extract creates no &mut borrow of it - a column cannot consume or alter what the next column reads; and inside "
+                         "the column loop the row being built is only appended to, never read (a column's value is not another column's value)")
     exf = R.need_fn("sqlgrep::data_model::TableDefinition::extract")
     reach = P.reachable([P.fns[exf.key] if exf.key in P.fns else exf])
     SHARED = re.compile(r"data_model::ParsingInput|serde_json::value::Value|data_model::RegexResult|regex::regex::string::Captures")
@@ -161,9 +162,44 @@ def _shared_input(R):
             if SHARED.search(rty) and not rty.startswith("&") and re.match(r"^(sqlgrep::data_model::ParsingInput|serde_json::value::Value)", rty) \
                     and PR.loop_of(g, i) is not None:
                 bad.append((g, "borrows its %s mutably inside the column loop" % rty.split("<")[0].split("::")[-1], "%s:%d" % (g.file, s_["line"])))
+    # ... and no column's value is taken from the row being built (an earlier column's already converted value)
+    exv = PR.view(P, exf) if hasattr(exf, "key") else exf
+    def vec_root(g, op):
+        """the local a `&Vec<Value>` / `&mut Vec<Value>` operand borrows (through copies and reborrows)"""
+        seen_ = set()
+        pl = op.get("pl")
+        while pl is not None and pl["l"] not in seen_:
+            seen_.add(pl["l"])
+            if not g.local_ty(pl["l"]).startswith("&"):
+                return pl["l"]
+            defs = [s_ for _, s_ in g.stmts() if s_["k"] == "assign" and s_["pl"]["l"] == pl["l"] and not s_["pl"]["p"]]
+            if len(defs) != 1:
+                return None
+            rv = defs[0]["rv"]
+            if rv["k"] in ("ref", "rawptr"):
+                pl = rv["pl"]
+            elif rv["k"] == "use" and rv["op"].get("pl") is not None:
+                pl = rv["op"]["pl"]
+            else:
+                return None
+        return None
+    VECV = re.compile(r"^&(mut )?alloc::vec::Vec<sqlgrep::model::Value>$")
+    rows = set()
+    for c in exv.calls:
+        if short(c.name) == "alloc::vec::Vec::push" and c.args and VECV.match(c.args[0].get("ty") or "") and PR.loop_of(exv, c.bb) is not None:
+            r_ = vec_root(exv, c.args[0])
+            if r_ is not None:
+                rows.add(r_)
+    WRITE_ONLY = re.compile(r"^alloc::vec::Vec::(push|len|capacity|reserve|is_empty|with_capacity)$")
+    for c in exv.calls:
+        if not rows or PR.loop_of(exv, c.bb) is None or WRITE_ONLY.match(short(c.name)):
+            continue
+        for a_ in c.args:
+            if VECV.match(a_.get("ty") or "") and vec_root(exv, a_) in rows:
+                bad.append((exv, "reads a value back out of the row it is building (%s)" % short(c.name).split("::")[-1], c.loc()))
     if bad:
         for g, what, loc in bad[:4]:
-            R.violation("C02.shared", "%s|mutable-input" % g.spath.split("::")[-1],
+            R.violation("C02.shared", "%s|%s" % (g.spath.split("::")[-1], "row-readback" if "reads a value back" in what else "mutable-input"),
                         "%s %s: extracting one column can change what the following columns read from the same line (two columns with the same or "
                         "an overlapping JSON path no longer see the same value)" % (g.path, what), [loc])
     else:
